@@ -60,6 +60,13 @@ pub struct Case {
     pub class: String,
     /// place the packet so that its END (true) or START (false) touches the guard page
     pub end_aligned: bool,
+    /// placement variants: the program is loaded from a copy that starts `prog_shift` bytes into an
+    /// allocation (an odd / unaligned address for 1..7); the metadata buffer is mapped before the
+    /// packet (the other order in the address space)
+    pub prog_shift: u8,
+    pub mbuff_first: bool,
+    /// backing store of the shifted copy (filled by `with_placement`)
+    pub shifted: Vec<u8>,
 }
 
 impl Case {
@@ -79,7 +86,38 @@ impl Case {
             calc: CalcSpec::None,
             class: class.to_string(),
             end_aligned: true,
+            prog_shift: 0,
+            mbuff_first: false,
+            shifted: Vec::new(),
         }
+    }
+    /// the bytes the VM is given: the program itself, or its copy at an unaligned address
+    pub fn prog_slice(&self) -> &[u8] {
+        if self.prog_shift == 0 || self.shifted.len() != self.prog.len() + self.prog_shift as usize { &self.prog } else { &self.shifted[self.prog_shift as usize..] }
+    }
+    fn shifted_by(mut self, k: u8) -> Case {
+        if k > 0 && k < 8 {
+            self.prog_shift = k;
+            let mut st = vec![0xEEu8; k as usize];
+            st.extend_from_slice(&self.prog);
+            st.shrink_to_fit();
+            self.shifted = st;
+        }
+        self
+    }
+    /// the same case in another placement: packet at the other end of its mapping, metadata buffer
+    /// and packet in the other order, program bytes at an unaligned address
+    pub fn with_placement(&self, k: u8) -> Case {
+        let mut c = self.clone();
+        c.end_aligned = !self.end_aligned;
+        c.mbuff_first = !self.mbuff_first;
+        c.prog_shift = 1 + k % 7;
+        let mut st = vec![0xEEu8; c.prog_shift as usize];
+        st.extend_from_slice(&self.prog);
+        st.shrink_to_fit();
+        c.shifted = st;
+        c.class = format!("{}+placed", self.class);
+        c
     }
     pub fn hash(&self) -> u64 {
         let mut h = crate::util::fnv(&self.prog);
@@ -105,6 +143,8 @@ impl Case {
             "calc": self.calc.to_json(),
             "class": self.class,
             "end_aligned": self.end_aligned,
+            "mbuff_first": self.mbuff_first,
+            "prog_shift": self.prog_shift,
             "disasm": disasm_lossy(&self.prog, 64),
         })
     }
@@ -127,7 +167,11 @@ impl Case {
             calc: CalcSpec::from_json(&v["calc"]),
             class: s("class"),
             end_aligned: v.get("end_aligned").and_then(|x| x.as_bool()).unwrap_or(true),
+            prog_shift: 0,
+            mbuff_first: v.get("mbuff_first").and_then(|x| x.as_bool()).unwrap_or(false),
+            shifted: Vec::new(),
         }
+        .shifted_by(v.get("prog_shift").and_then(|x| x.as_u64()).unwrap_or(0) as u8)
     }
 }
 
